@@ -368,8 +368,8 @@ theorem _root_.KafVerif.C36.scan_sound (rs : List Rec) (mnT mxT mnO mxO : Int)
 /-- two segments of one partition whose offset ranges overlap (bases 0 and 3, the first holds
 offsets 0 and 5): the derived `MaxOffset` of the first is 2, and `_offset >= 4` loses row 5. -/
 def overlapSegs : List SegRef :=
-  [⟨0, 0, some 0, some 2, none, none, [⟨0, 0, 0, 10⟩, ⟨0, 0, 5, 11⟩]⟩,
-   ⟨0, 0, some 3, none, none, none, [⟨1, 0, 3, 12⟩, ⟨1, 0, 4, 13⟩]⟩]
+  [⟨0, 0, some 0, some 2, none, none, [⟨0, 0, 0, 10⟩, ⟨0, 0, 5, 11⟩], none⟩,
+   ⟨0, 0, some 3, none, none, none, [⟨1, 0, 3, 12⟩, ⟨1, 0, 4, 13⟩], none⟩]
 
 theorem _root_.KafVerif.C36.overlap_unsound :
     offsetStats [(0, [⟨0, 0, 0, 10⟩, ⟨0, 0, 5, 11⟩]), (3, [⟨1, 0, 3, 12⟩, ⟨1, 0, 4, 13⟩])] = [(some 0, some 2), (some 3, none)] ∧
@@ -380,10 +380,10 @@ theorem _root_.KafVerif.C36.overlap_unsound :
 /-! ### non-vacuity -/
 
 def okSegs : List SegRef :=
-  [⟨0, 0, some 0, some 2, some 10, some 12, [⟨0, 0, 0, 10⟩, ⟨0, 0, 1, 12⟩, ⟨0, 0, 2, 11⟩]⟩,
-   ⟨0, 0, some 3, none, none, none, [⟨1, 0, 3, 12⟩, ⟨1, 0, 4, 13⟩]⟩,
-   ⟨0, 1, none, none, none, some 50, [⟨2, 1, 0, 50⟩]⟩,
-   ⟨1, 0, some 0, none, none, none, [⟨3, 0, 0, 1⟩]⟩]
+  [⟨0, 0, some 0, some 2, some 10, some 12, [⟨0, 0, 0, 10⟩, ⟨0, 0, 1, 12⟩, ⟨0, 0, 2, 11⟩], none⟩,
+   ⟨0, 0, some 3, none, none, none, [⟨1, 0, 3, 12⟩, ⟨1, 0, 4, 13⟩], none⟩,
+   ⟨0, 1, none, none, none, some 50, [⟨2, 1, 0, 50⟩], none⟩,
+   ⟨1, 0, some 0, none, none, none, [⟨3, 0, 0, 1⟩], none⟩]
 
 example : (∀ s ∈ okSegs, StatsSound s) ∧ (∀ s ∈ okSegs, PartitionSound s) := by
   constructor
@@ -584,7 +584,7 @@ theorem _root_.KafVerif.C36.select_over_listing (objs : List Obj) (hwf : WellFor
   KafVerif.C36.select_eq_direct q _ (fun s hs => (KafVerif.C36.listing_sound objs hwf ti s hs).1)
     (fun s hs => (KafVerif.C36.listing_sound objs hwf ti s hs).2) hl
 
-example : WellFormedObjs [⟨0, 0, 0, true, [(0, 10), (2, 11)]⟩, ⟨0, 0, 3, true, [(3, 12)]⟩, ⟨0, 1, 0, false, []⟩] := by
+example : WellFormedObjs [⟨0, 0, 0, true, [(0, 10), (2, 11)], none⟩, ⟨0, 0, 3, true, [(3, 12)], none⟩, ⟨0, 1, 0, false, [], none⟩] := by
   refine ⟨?_, ?_, ?_⟩
   · intro a ha p hp
     simp only [List.mem_cons, List.not_mem_nil, or_false] at ha
